@@ -310,6 +310,30 @@ pub fn run(ctx: &Ctx) -> Report {
     });
     rep.merge(trep);
     rep.set("threshold_sweep", json!({"ladder_values": lad.len(), "wrappers": 3, "tiny_isometries": ["rot x", "rot (1,1,1)", "rot z axial", "tiny translation"], "nestings": ["alone", "base > w > tool"]}));
+    // --- the same contract one level further out: a robot with shape (base > tool > limits plus a collision filter) must keep
+    // the continuation order of the stack it wraps, whichever answers the filter removes
+    {
+        let qs: Vec<Joints> = crate::c10::postures(false).into_iter().step_by(3).collect();
+        let layouts = [0usize, 2, 3, 9, 11, 12];
+        let wsizes = [3, layouts.len(), 2, qs.len()];
+        let wn = par::product(&wsizes);
+        let wrep = par::run(wn, |idx, r| {
+            let mut ix = [0usize; 4];
+            par::decode(idx, &wsizes, &mut ix);
+            r.states += 1;
+            for far in [false, true] {
+                let (fails, sigs, calls) = eval_shape(ix[0], layouts[ix[1]], ix[2], &qs[ix[3]], far);
+                r.transitions += calls;
+                for sg in sigs {
+                    r.sig(sg);
+                }
+                for (k, d) in fails {
+                    r.fail(k, n + 2_000_000 + idx, json!({"kind": "shape", "frames": ix[0], "layout": layouts[ix[1]], "limits": ix[2], "q": nums(&qs[ix[3]]), "far": far}), d);
+                }
+            }
+        });
+        rep.merge(wrep);
+    }
     // LinearAxis / Gantry
     let ds = [0.0, 0.5, -1.25, 7.0];
     for (ri, p) in robots.iter().enumerate() {
@@ -341,7 +365,7 @@ pub fn run(ctx: &Ctx) -> Report {
         "breadth-first enumeration of every wrapper sequence of length 1..3 over {{tool, base, frame}} x {} isometries ({} stacks) x robots x joint vectors; \
          in every stack: forward and link poses against the composed reference, singularity/constraints delegation, and all four inverse entry points \
          (5-DOF ones on stacks whose tools/frames are axial): answers map back onto the request, continuation answers are nearest representatives in \
-         closeness order, 5-DOF answers carry the caller's / previous J6 bit-equal; LinearAxis (axes 0..2) and Gantry forward; threshold sweep: each wrapper kind with a rotation / translation of every ladder magnitude, alone and nested; signature = (stack shape, answers)",
+         closeness order, 5-DOF answers carry the caller's / previous J6 bit-equal; the continuation order also through a robot with shape (collision filter over tool > base > limits, six environments); LinearAxis (axes 0..2) and Gantry forward; threshold sweep: each wrapper kind with a rotation / translation of every ladder magnitude, alone and nested; signature = (stack shape, answers)",
         iso_subset.len(),
         stacks.len()
     );
@@ -349,8 +373,58 @@ pub fn run(ctx: &Ctx) -> Report {
     rep
 }
 
+/// Continuation order through a robot with shape (see `run`).
+fn eval_shape(frames: usize, layout: usize, limits: usize, q: &Joints, far: bool) -> (Vec<(String, String)>, Vec<String>, u64) {
+    let mut fails = Vec::new();
+    let mut sigs = Vec::new();
+    let mut calls = 0u64;
+    let case = crate::c11::Case { ctor: 2, frames, layout, safety: 0, limits, q: *q };
+    let cell = crate::c11::cell_for(&case);
+    let robot = crate::c11::build(&case, &cell);
+    let pose = to_na(&cell.tcp(&case.q));
+    let w = cell.limits.weight;
+    let centres = rs_opw_kinematics::constraints::Constraints::new(cell.limits.from, cell.limits.to, w).centers;
+    let mut prev = case.q;
+    prev[3] += 0.2;
+    if far {
+        prev = [2.0, -1.0, 1.5, -2.5, 1.0, 2.8];
+    }
+    for entry in [Entry::Continuing, Entry::Continuing5] {
+        let Ok(sols) = call(&robot, entry, &pose, &prev, 0.0) else { continue };
+        calls += 1;
+        let upto = if entry == Entry::Continuing5 { 5 } else { 6 };
+        let mut last = f64::NEG_INFINITY;
+        for s in &sols {
+            let dp: f64 = (0..upto).map(|i| (s[i] - prev[i]).abs()).sum();
+            let dc: f64 = (0..upto).map(|i| (s[i] - centres[i]).abs()).sum();
+            let cost = (1.0 - w) * dp + w * dc;
+            if cost < last - 1e-9 * (1.0 + last.abs()) {
+                fails.push((
+                    format!("C09/continuation-order/{}/shape>tool>base>opw", entry.name()),
+                    format!("answers of the robot with shape are not in closeness order: cost {cost} after {last} in {sols:?}"),
+                ));
+                break;
+            }
+            last = cost;
+        }
+        sigs.push(format!("shape:{}:{}", entry.name(), sols.len().min(3)));
+    }
+    (fails, sigs, calls)
+}
+
 pub fn replay(case: &Value) -> Vec<String> {
     match case["kind"].as_str().unwrap_or("stack") {
+        "shape" => eval_shape(
+            case["frames"].as_u64().unwrap() as usize,
+            case["layout"].as_u64().unwrap() as usize,
+            case["limits"].as_u64().unwrap() as usize,
+            &as_arr6(&case["q"]),
+            case["far"].as_bool().unwrap_or(false),
+        )
+        .0
+        .into_iter()
+        .map(|(k, d)| format!("{k}: {d}"))
+        .collect(),
         "axis" => eval_axis(
             &params_from_json(&case["params"]),
             &as_arr6(&case["q"]),
